@@ -790,7 +790,8 @@ class BosonicBackend(BaseBosonic):
             return np.array([res[:, 0] + 1j * res[:, 1]]).T
 
         res = select
-        self.circuit.post_select_heterodyne(mode, select)
+        # the circuit expects the phase-space point x + ip = sqrt(2 hbar) * alpha of the outcome alpha
+        self.circuit.post_select_heterodyne(mode, select * np.sqrt(2 * self.circuit.hbar))
         return np.array([[res]])
 
     def is_vacuum(self, tol=1e-10, **kwargs):
